@@ -32,6 +32,7 @@ fn main() {
             }
         }
         "c19serve" => kv::props::c19::serve(),
+        "c07battery" => kv::props::c07::print_battery(),
         "runfile" => {
             let src = std::fs::read_to_string(&args[2]).unwrap();
             let limit = std::env::var("KV_LIMIT_MS").ok().and_then(|v| v.parse().ok()).unwrap_or(2000u64);
